@@ -58,6 +58,20 @@ func driveAllocs(s *shardSet, rng *rand.Rand, thorough bool) ([]string, map[stri
 						}
 						w.WriteStriped(v, kt, ins, nils)
 						w.ReadStriped(v, kt, lz, nils)
+						// ragged input: one channel shorter, one nil, lengths uneven
+						if ch > 1 && l > 1 {
+							rag := make([][]int64, ch)
+							rnil := make([]bool, ch)
+							rl := make([]int, ch)
+							for c := range rag {
+								rag[c] = w.stamps(min2(l, 16) - c%2)
+								rl[c] = min2(l, 16) - (c+1)%2
+							}
+							rnil[ch-1] = true
+							w.WriteStriped(v, kt, rag, rnil)
+							w.ReadStriped(v, kt, rl, rnil)
+							w.WriteStriped(v, kt, rag, make([]bool, ch))
+						}
 					}
 					for c := 0; c < ch && l > 0; c++ {
 						w.Views[v].ChanNew(c) // measured: Channel() returns the view by value
